@@ -13,6 +13,8 @@ import (
 var (
 	zzAddrA = &net.UDPAddr{IP: net.IP{127, 0, 0, 1}, Port: 8805}
 	zzAddrB = &net.UDPAddr{IP: net.IP{127, 0, 0, 2}, Port: 8805}
+	// peer A after it moved to another source port (same node id)
+	zzAddrA2 = &net.UDPAddr{IP: net.IP{127, 0, 0, 1}, Port: 8806}
 )
 
 const (
